@@ -1,5 +1,480 @@
-/- C19 — property theorems (to be written). -/
-import SoundeventModel.Basic
+/-
+  C19 — Tag encoding projects faithfully onto the vocabulary; equal objects hash equally.
+  Property theorems only (helper lemmas live in Proofs/Lemmas/Encoding.lean).
+
+  `encode` is the model of the code's dictionary (an association list in which a later
+  equal key overwrites); the theorems relate it to the list-search reading of the property.
+-/
+import SoundeventModel.Encoding
+import Proofs.Lemmas.Encoding
 namespace SE.Proofs.C19
+open SE SE.Encoding SE.Proofs.Lemmas.Encoding
+
+/-! ### the encoder -/
+
+/-- what the dictionary holds for *any* vocabulary: the last position of the tag -/
+theorem C19_encode_last (vocab : List Tag) (t : Tag) (i : Nat) :
+    encode vocab t = some i ↔ vocab[i]? = some t ∧ ∀ j, i < j → vocab[j]? ≠ some t := by
+  rw [encode_eq_lastIdx]; exact lastIdx_some
+
+/-- a tag is encoded as `i` iff it is the `i`-th vocabulary tag -/
+theorem C19_encode_iff (vocab : List Tag) (h : vocab.Nodup) (t : Tag) (i : Nat) :
+    encode vocab t = some i ↔ vocab[i]? = some t := by
+  rw [C19_encode_last]
+  constructor
+  · exact fun h => h.1
+  · intro hi
+    refine ⟨hi, fun j hj hjt => ?_⟩
+    have hlt : i < vocab.length := (List.getElem?_eq_some_iff.mp hi).1
+    have := (List.getElem?_inj hlt h).mp (hi.trans hjt.symm)
+    omega
+
+/-- … and to nothing otherwise (this half needs no distinctness) -/
+theorem C19_encode_none (vocab : List Tag) (t : Tag) : encode vocab t = none ↔ t ∉ vocab := by
+  rw [encode_eq_lastIdx]; exact lastIdx_none
+
+/-- the dictionary agrees with a linear search for the first equal element -/
+theorem C19_encode_eq_search (vocab : List Tag) (h : vocab.Nodup) (t : Tag) :
+    encode vocab t = searchIdx t vocab := by
+  rw [encode_eq_lastIdx]; exact lastIdx_eq_searchIdx h
+
+/-- the search is "index of the first element equal to `t`" -/
+theorem C19_search_first (vocab : List Tag) (t : Tag) (i : Nat) :
+    searchIdx t vocab = some i ↔ vocab[i]? = some t ∧ ∀ j, j < i → vocab[j]? ≠ some t :=
+  searchIdx_some
+
+/-- an encoding is an index into the vocabulary -/
+theorem C19_encode_lt (vocab : List Tag) (t : Tag) (i : Nat) (h : encode vocab t = some i) :
+    i < numClasses vocab :=
+  (List.getElem?_eq_some_iff.mp ((C19_encode_last vocab t i).mp h).1).1
+
+/-- decoding an encoding gives the tag back (any vocabulary) -/
+theorem C19_decode_encode (vocab : List Tag) (t : Tag) (i : Nat) (h : encode vocab t = some i) :
+    decode vocab i = some t :=
+  ((C19_encode_last vocab t i).mp h).1
+
+/-- decoding then encoding is the identity on indices -/
+theorem C19_encode_decode (vocab : List Tag) (h : vocab.Nodup) (i : Nat) (hi : i < numClasses vocab) :
+    (decode vocab i).bind (encode vocab) = some i := by
+  have : vocab[i]? = some vocab[i] := List.getElem?_eq_getElem hi
+  simp only [decode, this, Option.bind_some]
+  exact (C19_encode_iff vocab h _ i).mpr this
+
+/-- the dictionary key identifies the tag: two tags have the same key iff they are equal -/
+theorem C19_key_faithful (a b : Tag) : key a = key b ↔ a = b := key_inj
+
+/-! ### classification -/
+
+/-- the encoding of the first tag of the list that is in the vocabulary, `none` if there is none -/
+theorem C19_first_in_vocab (vocab tags : List Tag) :
+    classificationEncoding vocab tags = (tags.find? (· ∈ vocab)).bind (encode vocab) := by
+  induction tags with
+  | nil => rfl
+  | cons t ts ih =>
+    simp only [classificationEncoding, List.find?_cons]
+    by_cases h : t ∈ vocab
+    · have : encode vocab t ≠ none := fun e => (C19_encode_none vocab t).mp e h
+      cases he : encode vocab t with
+      | none => exact absurd he this
+      | some i => simp [h, he]
+    · simp [h, (C19_encode_none vocab t).mpr h, ih]
+
+theorem C19_first_in_vocab_iff (vocab : List Tag) (h : vocab.Nodup) (tags : List Tag) (i : Nat) :
+    classificationEncoding vocab tags = some i ↔
+      ∃ t, tags.find? (· ∈ vocab) = some t ∧ vocab[i]? = some t := by
+  rw [C19_first_in_vocab]
+  cases tags.find? (· ∈ vocab) with
+  | none => simp
+  | some t => simp [C19_encode_iff vocab h]
+
+theorem C19_classification_none (vocab tags : List Tag) :
+    classificationEncoding vocab tags = none ↔ ∀ t ∈ tags, t ∉ vocab := by
+  rw [C19_first_in_vocab]
+  cases hf : tags.find? (· ∈ vocab) with
+  | none => simpa using hf
+  | some t =>
+    have hm := List.mem_of_find?_eq_some hf
+    have hv : t ∈ vocab := by simpa using List.find?_some hf
+    simp only [Option.bind_some, C19_encode_none]
+    exact ⟨fun h => absurd hv h, fun h => h t hm⟩
+
+/-! ### multilabel -/
+
+theorem C19_multilabel_length (vocab tags : List Tag) :
+    (multilabelEncoding vocab tags).length = numClasses vocab := by
+  simp [multilabelEncoding, fill_length, numClasses]
+
+/-- entry `i` is 1 iff some tag of the list is encoded as `i` (any vocabulary) -/
+theorem C19_indicator_general (vocab tags : List Tag) (i : Nat) (hi : i < numClasses vocab) :
+    (multilabelEncoding vocab tags)[i]? =
+      some (if ∃ t ∈ tags, encode vocab t = some i then 1 else 0) := by
+  unfold multilabelEncoding
+  rw [fill_get _ _ _ _ _ (by simpa [numClasses] using hi)]
+  cases hl : lastWhere (fun t => encode vocab t == some i) tags with
+  | none =>
+    have := lastWhere_none.mp hl
+    have hno : ¬ ∃ t ∈ tags, encode vocab t = some i := by
+      rintro ⟨t, ht, he⟩; simpa [he] using this t ht
+    have hi' : i < vocab.length := hi
+    simp [hno, hi']
+  | some x =>
+    have := lastWhere_some_mem hl
+    have hyes : ∃ t ∈ tags, encode vocab t = some i := ⟨x, this.1, by simpa using this.2⟩
+    simp [hyes]
+
+/-- the indicator vector of the vocabulary tags present in the list -/
+theorem C19_indicator (vocab : List Tag) (h : vocab.Nodup) (tags : List Tag) (i : Nat)
+    (hi : i < vocab.length) :
+    (multilabelEncoding vocab tags)[i]? = some (if vocab[i] ∈ tags then 1 else 0) := by
+  rw [C19_indicator_general vocab tags i hi]
+  have hget : vocab[i]? = some vocab[i] := List.getElem?_eq_getElem hi
+  have : (∃ t ∈ tags, encode vocab t = some i) ↔ vocab[i] ∈ tags := by
+    constructor
+    · rintro ⟨t, ht, he⟩
+      have := (C19_encode_iff vocab h t i).mp he
+      rw [hget] at this; cases this; exact ht
+    · intro hm; exact ⟨_, hm, (C19_encode_iff vocab h _ i).mpr hget⟩
+  simp only [this]
+
+/-! ### predictions -/
+
+theorem C19_prediction_length (cast : Rat → Rat) (vocab : List Tag) (preds : List PredictedTag) :
+    (predictionEncoding cast vocab preds).length = numClasses vocab := by
+  simp [predictionEncoding, fill_length, numClasses]
+
+/-- entry `i` holds the stored score of the last predicted tag that is the `i`-th vocabulary
+    tag, and 0 when there is none -/
+theorem C19_scores (cast : Rat → Rat) (vocab : List Tag) (h : vocab.Nodup) (preds : List PredictedTag)
+    (i : Nat) (hi : i < vocab.length) :
+    (predictionEncoding cast vocab preds)[i]? =
+      some (match lastWhere (fun p => decide (p.tag = vocab[i])) preds with
+            | some p => cast p.score
+            | none => 0) := by
+  unfold predictionEncoding
+  rw [fill_get _ _ _ _ _ (by simpa using hi)]
+  have hget : vocab[i]? = some vocab[i] := List.getElem?_eq_getElem hi
+  have hc : lastWhere (fun p : PredictedTag => encode vocab p.tag == some i) preds
+      = lastWhere (fun p => decide (p.tag = vocab[i])) preds := by
+    apply lastWhere_congr
+    intro p _
+    have := C19_encode_iff vocab h p.tag i
+    rw [hget] at this
+    by_cases hp : p.tag = vocab[i]
+    · simp [hp, (C19_encode_iff vocab h _ i).mpr hget]
+    · have : encode vocab p.tag ≠ some i := fun e => hp (by simpa using (this.mp e).symm)
+      simp [hp, this]
+  rw [hc]
+  cases lastWhere (fun p => decide (p.tag = vocab[i])) preds <;> simp [hi]
+
+/-- where every prediction of a vocabulary tag carries the same score, that score is the entry
+    (the inputs on which the property determines the vector) -/
+theorem C19_scores_unique (cast : Rat → Rat) (vocab : List Tag) (h : vocab.Nodup)
+    (preds : List PredictedTag) (i : Nat) (hi : i < vocab.length) (s : Rat)
+    (hex : ∃ p ∈ preds, p.tag = vocab[i])
+    (hall : ∀ p ∈ preds, p.tag = vocab[i] → cast p.score = cast s) :
+    (predictionEncoding cast vocab preds)[i]? = some (cast s) := by
+  rw [C19_scores cast vocab h preds i hi]
+  cases hl : lastWhere (fun p => decide (p.tag = vocab[i])) preds with
+  | none =>
+    obtain ⟨p, hp, ht⟩ := hex
+    have := lastWhere_none.mp hl p hp
+    simp [ht] at this
+  | some p =>
+    have := lastWhere_some_mem hl
+    simp [hall p this.1 (by simpa using this.2)]
+
+/-- an entry is never anything but 0 or the stored score of a prediction of that very tag -/
+theorem C19_scores_mem (cast : Rat → Rat) (vocab : List Tag) (h : vocab.Nodup)
+    (preds : List PredictedTag) (i : Nat) (hi : i < vocab.length) :
+    ((∀ p ∈ preds, p.tag ≠ vocab[i]) ∧ (predictionEncoding cast vocab preds)[i]? = some 0) ∨
+    (∃ p ∈ preds, p.tag = vocab[i] ∧ (predictionEncoding cast vocab preds)[i]? = some (cast p.score)) := by
+  rw [C19_scores cast vocab h preds i hi]
+  cases hl : lastWhere (fun p => decide (p.tag = vocab[i])) preds with
+  | none =>
+    left
+    refine ⟨fun p hp => ?_, rfl⟩
+    simpa using lastWhere_none.mp hl p hp
+  | some p =>
+    right
+    have := lastWhere_some_mem hl
+    exact ⟨p, this.1, by simpa using this.2, rfl⟩
+
+/-! ### tags outside the vocabulary never influence a result -/
+
+theorem C19_oov_irrelevant_classification (vocab tags : List Tag) :
+    classificationEncoding vocab (tags.filter (· ∈ vocab)) = classificationEncoding vocab tags := by
+  rw [C19_first_in_vocab, C19_first_in_vocab]
+  congr 1
+  induction tags with
+  | nil => rfl
+  | cons t ts ih => by_cases h : t ∈ vocab <;> simp [h, ih]
+
+theorem C19_oov_irrelevant_multilabel (vocab tags : List Tag) :
+    multilabelEncoding vocab (tags.filter (· ∈ vocab)) = multilabelEncoding vocab tags := by
+  unfold multilabelEncoding
+  generalize List.replicate vocab.length 0 = init
+  induction tags generalizing init with
+  | nil => rfl
+  | cons t ts ih =>
+    by_cases h : t ∈ vocab
+    · simp only [List.filter_cons, h, decide_true, if_true, List.foldl_cons]; exact ih _
+    · simp only [List.filter_cons, h, decide_false, Bool.false_eq_true, if_false, List.foldl_cons,
+        (C19_encode_none vocab t).mpr h]
+      exact ih init
+
+theorem C19_oov_irrelevant_prediction (cast : Rat → Rat) (vocab : List Tag) (preds : List PredictedTag) :
+    predictionEncoding cast vocab (preds.filter (·.tag ∈ vocab)) = predictionEncoding cast vocab preds := by
+  unfold predictionEncoding
+  generalize List.replicate vocab.length (0 : Rat) = init
+  induction preds generalizing init with
+  | nil => rfl
+  | cons p ps ih =>
+    by_cases h : p.tag ∈ vocab
+    · simp only [List.filter_cons, h, decide_true, if_true, List.foldl_cons]; exact ih _
+    · simp only [List.filter_cons, h, decide_false, Bool.false_eq_true, if_false, List.foldl_cons,
+        (C19_encode_none vocab p.tag).mpr h]
+      exact ih init
+
+/-- two tag lists with the same in-vocabulary members, in the same order, are encoded alike -/
+theorem C19_oov_irrelevant (cast : Rat → Rat) (vocab tags tags' : List Tag) (preds preds' : List PredictedTag)
+    (ht : tags.filter (· ∈ vocab) = tags'.filter (· ∈ vocab))
+    (hp : preds.filter (·.tag ∈ vocab) = preds'.filter (·.tag ∈ vocab)) :
+    classificationEncoding vocab tags = classificationEncoding vocab tags' ∧
+    multilabelEncoding vocab tags = multilabelEncoding vocab tags' ∧
+    predictionEncoding cast vocab preds = predictionEncoding cast vocab preds' := by
+  refine ⟨?_, ?_, ?_⟩
+  · rw [← C19_oov_irrelevant_classification vocab tags, ht, C19_oov_irrelevant_classification]
+  · rw [← C19_oov_irrelevant_multilabel vocab tags, ht, C19_oov_irrelevant_multilabel]
+  · rw [← C19_oov_irrelevant_prediction cast vocab preds, hp, C19_oov_irrelevant_prediction]
+
+/-! ### the executable statements used by the monitor mean what they say -/
+
+theorem C19_holds_classification (vocab : List Tag) (h : vocab.Nodup) (tags : List Tag) (out : Option Nat) :
+    holdsClassification vocab tags out = true ↔ out = classificationEncoding vocab tags := by
+  rw [C19_first_in_vocab]
+  unfold holdsClassification
+  cases hf : tags.find? (· ∈ vocab) with
+  | none => cases out <;> simp
+  | some t =>
+    have hv : t ∈ vocab := by simpa using List.find?_some hf
+    cases out with
+    | none =>
+      have : encode vocab t ≠ none := fun e => (C19_encode_none vocab t).mp e hv
+      simp; exact fun e => this e.symm
+    | some i =>
+      simp only [Option.bind_some, beq_iff_eq]
+      rw [← C19_encode_iff vocab h t i]
+      exact ⟨fun e => e.symm, fun e => e.symm⟩
+
+theorem C19_holds_multilabel (vocab : List Tag) (h : vocab.Nodup) (tags : List Tag) (out : List Nat) :
+    holdsMultilabel vocab tags out = true ↔ out = multilabelEncoding vocab tags := by
+  constructor
+  · intro hh
+    simp only [holdsMultilabel, Bool.and_eq_true, beq_iff_eq, List.all_eq_true, List.mem_range] at hh
+    obtain ⟨hlen, hall⟩ := hh
+    apply List.ext_getElem?
+    intro i
+    by_cases hi : i < vocab.length
+    · rw [C19_indicator vocab h tags i hi]
+      have := hall i hi
+      rw [List.getElem?_eq_getElem hi, List.getElem?_eq_getElem (by omega : i < out.length)] at this
+      rw [List.getElem?_eq_getElem (by omega : i < out.length)]
+      simpa using this
+    · have l2 := C19_multilabel_length vocab tags
+      unfold numClasses at l2
+      rw [List.getElem?_eq_none (by omega), List.getElem?_eq_none (by omega)]
+  · rintro rfl
+    have l2 := C19_multilabel_length vocab tags
+    unfold numClasses at l2
+    simp only [holdsMultilabel, Bool.and_eq_true, beq_iff_eq, List.all_eq_true, List.mem_range]
+    refine ⟨l2, fun i hi => ?_⟩
+    rw [C19_indicator vocab h tags i hi, List.getElem?_eq_getElem hi]
+    simp
+
+/-- the model's prediction vector satisfies the monitor's statement -/
+theorem C19_holds_prediction (cast : Rat → Rat) (vocab : List Tag) (h : vocab.Nodup)
+    (preds : List PredictedTag) :
+    holdsPrediction cast vocab preds (predictionEncoding cast vocab preds) = true := by
+  have l2 := C19_prediction_length cast vocab preds
+  unfold numClasses at l2
+  simp only [holdsPrediction, Bool.and_eq_true, beq_iff_eq, List.all_eq_true, List.mem_range]
+  refine ⟨l2, fun i hi => ?_⟩
+  rw [List.getElem?_eq_getElem hi]
+  rcases C19_scores_mem cast vocab h preds i hi with ⟨hno, hz⟩ | ⟨p, hp, ht, hs⟩
+  · rw [hz]
+    have : preds.filter (fun p => decide (p.tag = vocab[i])) = [] := by
+      simp only [List.filter_eq_nil_iff, decide_eq_true_eq]; exact hno
+    simp [this]
+  · rw [hs]
+    have hne : (preds.filter (fun p => decide (p.tag = vocab[i]))).isEmpty = false := by
+      cases hf : preds.filter (fun p => decide (p.tag = vocab[i])) with
+      | nil =>
+        have : p ∈ preds.filter (fun p => decide (p.tag = vocab[i])) := by simp [hp, ht]
+        rw [hf] at this; cases this
+      | cons _ _ => rfl
+    simp only [hne, Bool.false_eq_true, if_false, List.any_eq_true, List.mem_filter, decide_eq_true_eq,
+      beq_iff_eq]
+    exact ⟨p, ⟨hp, ht⟩, rfl⟩
+
+/-- on inputs where every vocabulary tag is predicted with one (stored) score the statement
+    determines the vector -/
+theorem C19_holds_prediction_determines (cast : Rat → Rat) (vocab : List Tag) (h : vocab.Nodup)
+    (preds : List PredictedTag) (out : List Rat)
+    (huniq : ∀ p ∈ preds, ∀ q ∈ preds, p.tag = q.tag → cast p.score = cast q.score)
+    (hh : holdsPrediction cast vocab preds out = true) :
+    out = predictionEncoding cast vocab preds := by
+  simp only [holdsPrediction, Bool.and_eq_true, beq_iff_eq, List.all_eq_true, List.mem_range] at hh
+  obtain ⟨hlen, hall⟩ := hh
+  have l2 := C19_prediction_length cast vocab preds
+  unfold numClasses at l2
+  apply List.ext_getElem?
+  intro i
+  by_cases hi : i < vocab.length
+  · have := hall i hi
+    rw [List.getElem?_eq_getElem hi, List.getElem?_eq_getElem (by omega : i < out.length)] at this
+    rw [List.getElem?_eq_getElem (by omega : i < out.length)]
+    rcases C19_scores_mem cast vocab h preds i hi with ⟨hno, hz⟩ | ⟨p, hp, ht, hs⟩
+    · rw [hz]
+      have hf : preds.filter (fun p => decide (p.tag = vocab[i])) = [] := by
+        simp only [List.filter_eq_nil_iff, decide_eq_true_eq]; exact hno
+      simp [hf] at this
+      rw [this]
+    · rw [hs]
+      have hne : (preds.filter (fun p => decide (p.tag = vocab[i]))).isEmpty = false := by
+        cases hf : preds.filter (fun p => decide (p.tag = vocab[i])) with
+        | nil =>
+          have : p ∈ preds.filter (fun p => decide (p.tag = vocab[i])) := by simp [hp, ht]
+          rw [hf] at this; cases this
+        | cons _ _ => rfl
+      simp only [hne, Bool.false_eq_true, if_false, List.any_eq_true, List.mem_filter, decide_eq_true_eq,
+        beq_iff_eq] at this
+      obtain ⟨q, ⟨hq, hqt⟩, hqs⟩ := this
+      rw [← hqs, huniq q hq p hp (hqt.trans ht.symm)]
+  · rw [List.getElem?_eq_none (by omega), List.getElem?_eq_none (by omega)]
+
+/-! ### equal objects hash equally -/
+
+mutual
+theorem beq_sound : ∀ (a b : Val), Val.beq a b = true → a = b
+  | .none, b => by cases b <;> simp [Val.beq]
+  | .bool x, b => by cases b <;> simp [Val.beq]
+  | .str x, b => by cases b <;> simp [Val.beq]
+  | .num x, b => by cases b <;> simp [Val.beq]
+  | .list xs, b => by
+    cases b <;> simp [Val.beq]
+    exact beqList_sound xs _
+  | .tuple xs, b => by
+    cases b <;> simp [Val.beq]
+    exact beqList_sound xs _
+  | .obj c n xs, b => by
+    cases b <;> simp [Val.beq]
+    intro h1 h2 h3
+    exact ⟨h1, h2, beqList_sound xs _ h3⟩
+theorem beqList_sound : ∀ (a b : List Val), Val.beqList a b = true → a = b
+  | [], b => by cases b <;> simp [Val.beqList]
+  | x :: xs, b => by
+    cases b with
+    | nil => simp [Val.beqList]
+    | cons y ys =>
+      simp only [Val.beqList, Bool.and_eq_true, List.cons.injEq]
+      exact fun ⟨h1, h2⟩ => ⟨beq_sound x y h1, beqList_sound xs ys h2⟩
+end
+
+mutual
+theorem beq_refl : ∀ (a : Val), Val.beq a a = true
+  | .none => by simp [Val.beq]
+  | .bool _ => by simp [Val.beq]
+  | .str _ => by simp [Val.beq]
+  | .num _ => by simp [Val.beq]
+  | .list xs => by simp [Val.beq, beqList_refl xs]
+  | .tuple xs => by simp [Val.beq, beqList_refl xs]
+  | .obj _ _ xs => by simp [Val.beq, beqList_refl xs]
+theorem beqList_refl : ∀ (a : List Val), Val.beqList a a = true
+  | [] => by simp [Val.beqList]
+  | x :: xs => by simp [Val.beqList, beq_refl x, beqList_refl xs]
+end
+
+/-- the modelled `==` (same class, same field values, recursively) is equality of the trees -/
+theorem C19_eq_structural (a b : Val) : Val.beq a b = true ↔ a = b :=
+  ⟨beq_sound a b, fun h => h ▸ beq_refl a⟩
+
+/-- objects that compare equal have the same hash key — for all eight classes at once
+    (`hashKey` dispatches on the class: name; (term name, value); uuid) -/
+theorem C19_hash_respects_eq (a b : Val) (h : Val.beq a b = true) : hashKey a = hashKey b := by
+  rw [beq_sound a b h]
+
+/-- the hash key of each class is made of fields of the object (so nothing equality ignores
+    can enter a hash): whenever it is defined, every component is a field value of the
+    object or of its `term` -/
+theorem C19_hash_reads_fields (cls : String) (names : List String) (vals : List Val) (k : List Val)
+    (h : hashKey (.obj cls names vals) = some k) :
+    ∀ x ∈ k, (∃ f, (Val.obj cls names vals).field f = some x) ∨
+             (∃ t f, (Val.obj cls names vals).field "term" = some t ∧ t.field f = some x) := by
+  intro x hx
+  simp only [hashKey] at h
+  split at h
+  · -- Term
+    simp only [Option.map_eq_some_iff] at h
+    obtain ⟨n, hn, rfl⟩ := h
+    simp at hx; subst hx; exact .inl ⟨"name", hn⟩
+  · split at h
+    · -- Tag / Feature
+      split at h
+      · rename_i t v ht hv
+        simp only [Option.map_eq_some_iff] at h
+        obtain ⟨n, hn, rfl⟩ := h
+        simp at hx
+        rcases hx with rfl | rfl
+        · exact .inr ⟨t, "name", ht, hn⟩
+        · exact .inl ⟨"value", hv⟩
+      · cases h
+    · split at h
+      · -- identified classes
+        simp only [Option.map_eq_some_iff] at h
+        obtain ⟨u, hu, rfl⟩ := h
+        simp at hx; subst hx; exact .inl ⟨"uuid", hu⟩
+      · cases h
+
+/-- table form (tie 1): if every field a `__hash__` reads is a field `__eq__` compares, two
+    records that agree on the compared fields agree on the hashed ones -/
+theorem C19_hash_table (r : HashRow) (h : r.wellFormed = true) (a b : Record)
+    (hab : agreeOn r.eqReads a b) : agreeOn r.hashReads a b := by
+  intro f hf
+  simp only [HashRow.wellFormed, List.all_eq_true, decide_eq_true_eq] at h
+  exact hab f (h f hf)
+
+/-- for the concrete structures of the encoder: equal tags have equal keys and equal hash keys,
+    and the key of the dictionary determines the hash key -/
+theorem C19_hash_respects_eq_tag (a b : Tag) (h : key a = key b) :
+    a.hashKey = b.hashKey ∧ a.term.hashKey = b.term.hashKey := by
+  rw [key_inj.mp h]; exact ⟨rfl, rfl⟩
+
+/-! ### non-vacuity -/
+section Examples
+def tm (label name : String) : Term :=
+  { label := label, definition := "d", name := name, uri := none, typeOfTerm := "property",
+    comment := none, see := none, subpropertyOf := none, subclassOf := none, domain := none,
+    domainIncludes := none, termRange := none, rangeIncludes := none, memberOf := none,
+    instanceOf := none, equivalentProperty := none, description := none, scopeNote := none, extra := [] }
+def dog : Tag := ⟨tm "animal" "a:animal", "dog"⟩
+def dog' : Tag := ⟨tm "Animal" "a:animal", "dog"⟩   -- same name, other label
+def cat : Tag := ⟨tm "animal" "a:animal", "cat"⟩
+def brown : Tag := ⟨tm "colour" "a:colour", "brown"⟩
+
+example : [dog, dog', brown].Nodup := by decide
+example : encode [dog, dog', brown] dog' = some 1 := by decide
+example : encode [dog, dog', brown] cat = none := by decide
+-- a vocabulary with a repeated tag: the dictionary keeps the last position, the search the first
+example : encode [dog, brown, dog] dog = some 2 ∧ searchIdx dog [dog, brown, dog] = some 0 := by decide
+example : classificationEncoding [dog, brown] [cat, brown, dog] = some 1 := by decide
+example : multilabelEncoding [dog, brown, cat] [cat, dog', cat] = [0, 0, 1] := by decide
+example : predictionEncoding id [dog, brown] [⟨dog, 1/4⟩, ⟨cat, 1⟩, ⟨dog, 1/2⟩] = [1/2, 0] := by decide +kernel
+example : holdsPrediction id [dog, brown] [⟨dog, 1/4⟩, ⟨dog, 1/2⟩] [1/4, 0] = true := by decide +kernel
+example : holdsPrediction id [dog, brown] [⟨dog, 1/4⟩, ⟨dog, 1/2⟩] [3/4, 0] = false := by decide +kernel
+example : (hashKey (.obj "Tag" ["term", "value"] [.obj "Term" ["label", "name"] [.str "l", .str "n"], .str "v"])).map
+    (Val.beqList [.str "n", .str "v"]) = some true := by decide
+example : (HashRow.mk "Term" ["label", "definition", "name"] ["name"]).wellFormed = true := by decide
+example : (HashRow.mk "Term" ["label"] ["name"]).wellFormed = false := by decide
+end Examples
 
 end SE.Proofs.C19
